@@ -19,6 +19,9 @@ MODULES = [
     "frames",
     "spaces",
     "minorgrid",
+    "costsonly",
+    "options",
+    "emptiness",
 ]
 
 
